@@ -65,7 +65,11 @@ std::string img_assign(std::string const& T1, std::string const& T2, std::ptrdif
         if (how == "any") b = a;
         else if (how == "conc") b = v2::get<I1>(a);
         else if (how == "subset") {
+#ifndef C14_LIST_B
             if constexpr (std::is_same<I1, gil::gray8_image_t>::value || std::is_same<I1, gil::rgb8_image_t>::value) { LS sub(make<I1>(w1, h1, s1)); b = sub; }
+#else
+            if constexpr (false) {}
+#endif
             else { out = "bad-op"; return; }
         } else { out = "bad-op"; return; }
         bool eq0 = (a == b);
@@ -147,7 +151,7 @@ std::string img_recreate(std::string const& T, std::ptrdiff_t w, std::ptrdiff_t 
 
 int main() {
     return hv::run([](std::string const& line) -> std::string {
-        auto a = hv::words(line);
+        auto a = op_words(line);
         if (a.size() < 2 || a[0] != "img") return "bad-op";
         auto N = [&](size_t i) { return (std::ptrdiff_t)hv::to_ll(a.at(i)); };
         if (a[1] == "dims" && a.size() == 6) return img_dims(a[2], N(3), N(4), hv::to_ull(a[5]));
